@@ -1,4 +1,5 @@
 import DnpModel.Io.Load
+import DnpProofs.Props.C12
 import Mathlib.Analysis.SpecialFunctions.Pow.Real
 import Mathlib.Analysis.SpecialFunctions.Log.Base
 set_option linter.unusedSectionVars false
@@ -114,5 +115,44 @@ theorem container_independent (xs : List ℝ) :
   apply List.map_congr_left
   intro x _
   exact w2dBm_dBm2w x
+
+/-- a list of paths is stacked along a new last dimension with the supplied coordinates: slice k IS the object loaded from
+    the k-th path as given (whatever the importer, whatever the number of paths), and the new axis carries `coord` -/
+theorem multi_load_spec {κ α : Type} [Inhabited α] [Inhabited κ] (loadOne : String → Except Err (Data κ α))
+    (arange : Nat → List κ) {paths : List String} {dim : Option String} {coord : List κ} {r : Data κ α}
+    (hc0 : coord ≠ []) (hr : Dnp.Load.loadMany loadOne arange paths dim coord = .ok r) :
+    coord.length = paths.length ∧
+    ∃ parts : List (Data κ α), List.Forall₂ (fun p d => loadOne p = .ok d) paths parts ∧
+      ∀ p0 rest, parts = p0 :: rest → (∀ p ∈ parts, p.Consistent) →
+        r.dims = p0.dims ++ [dim.getD "unnamed"] ∧ r.coords = p0.coords ++ [coord] ∧
+        ∀ (ℓ : String → Nat) (k : Nat) (hk : k < parts.length), ℓ (dim.getD "unnamed") = k →
+          (∀ nm ∈ p0.dims, ℓ nm < p0.ext nm) → r.getN ℓ = (parts[k]).values.get (p0.dims.map ℓ) := by
+  unfold Dnp.Load.loadMany at hr
+  split at hr
+  · cases hr
+  · rename_i hlen
+    have hlen : coord.length = paths.length := by simpa using hlen
+    simp only [bind, Except.bind] at hr
+    cases hm : paths.mapM loadOne with
+    | error e => rw [hm] at hr; cases hr
+    | ok parts =>
+      rw [hm] at hr
+      simp only at hr
+      have hne : ¬ coord.length = 0 := fun h => hc0 (List.length_eq_zero_iff.1 h)
+      rw [if_neg hne] at hr
+      refine ⟨hlen, parts, Dnp.C12.mapM_except_forall₂ loadOne paths parts hm, ?_⟩
+      intro p0 rest hparts hall
+      obtain ⟨hd, hv⟩ := Dnp.Data.concat_byname arange p0 rest hparts hall hr
+      refine ⟨hd, ?_, hv⟩
+      subst hparts
+      unfold Dnp.Data.concat at hr
+      simp only at hr
+      split at hr
+      · cases hr
+      · split at hr
+        · cases hr
+        · simp only [Except.ok.injEq] at hr
+          subst hr
+          rfl
 
 end Dnp.C16
